@@ -921,6 +921,27 @@ def gen_runs(rng, problems, algorithms, n_starts, bound_kinds):
     return runs
 
 
+NO_STEP_TEST = ['LS-newton', 'TR-newton', 'LS-BFGS', 'TR-BFGS']     # check_insufficient_progress is used by simple_bounds only
+
+
+def gen_tolerance_runs(rng, problems, algorithms, n_problems):
+    """non-default [SimpleBounds] tolerance (sharper 1e-7 / looser 1e-3, default steptol) for every algorithm; non-default
+    steptol (1e-9 for all; 0.1 only for the algorithms without a step test: for simple_bounds* a relative step <= steptol is a
+    documented stopping criterion reported as convergence, so a large steptol legitimately stops far from stationarity)"""
+    runs = []
+    for pid in sorted(problems, key=lambda k: int(k[1:]))[:n_problems]:
+        p = problems[pid]
+        for bk in ('none', 'active'):
+            bounds = gen_bounds(rng, p, bk)
+            start = gen_start(rng, p, bounds, rng.choice(['zero', 'random', 'far']))
+            for settings, algs in (({'tolerance': 1e-7}, algorithms), ({'tolerance': 1e-3}, algorithms),
+                                   ({'steptol': 1e-9}, algorithms), ({'steptol': 0.1}, [a for a in algorithms if a in NO_STEP_TEST]),
+                                   ({'tolerance': 1e-6, 'steptol': 0.1}, [a for a in algorithms if a in NO_STEP_TEST])):
+                for a in algs:
+                    runs.append(make_run(pid, p, bounds, start, a, False, None, dict(settings), {'bounds_kind': bk, 'start_kind': 'tolerances'}))
+    return runs
+
+
 def run_impl(ctx, problems, runs, spy=False):
     if not runs:
         return []
@@ -1091,16 +1112,29 @@ def check_run(problem, run, r):
             strict = max(strict, abs(pg) * max(abs(xi), 1.0) / max(abs(L), 1.0))
         info['relpg'] = worst
         info['relpg_strict'] = strict
+        # a configured [SimpleBounds] tolerance t replaces the default eps^(1/4) in the stopping rule of the biogeme_optimization
+        # algorithms (scipy ignores it): accepted up to max(1e-3, 10 t); and when the optimiser says it stopped on its
+        # relative-gradient test with a SHARPER tolerance than the default, the gradient must really be that small (10 t)
+        t_cfg = (run.get('settings') or {}).get('tolerance')
+        thr = 1e-3 if t_cfg is None else max(1e-3, 10.0 * float(t_cfg))
+        if (t_cfg is not None and float(t_cfg) < 1e-5 and alg != 'scipy' and str(r.get('cause', '')).startswith('Relative gradient')
+                and worst > 10.0 * float(t_cfg)):
+            out.append(Finding('stationarity-tolerance', f'{alg} reports convergence on its relative-gradient test although tolerance = {t_cfg!r} '
+                               f'is configured and the relative projected gradient is {worst:.3g} > 10 x tolerance',
+                               f'relative projected gradient <= {t_cfg!r} (configured [SimpleBounds] tolerance)',
+                               {'estimates': x, 'g': g, 'projected_gradient': pgs, 'cause': r.get('cause'), 'settings': run.get('settings'),
+                                'logLike': L, 'initLogLike': L0}))
         # estimated distance L* - L(x*) to the maximum, used to decide which runs are precise enough to be compared with each
         # other: first order on coordinates held by a bound (g_i * room left), second order elsewhere (1/2 g'(-H)^-1 g with the
         # smallest eigenvalue of -H >= 0.4 guaranteed by the generator): 1.25 * sum |g_i * pg_i|
         info['gap_box'] = 1.25 * sum(abs(gi * pg) for gi, pg in zip(g, pgs))
         info['gap_free'] = 1.25 * sum(gi * gi for gi in g)
-        if worst > 1e-3:
-            out.append(Finding('stationarity', f'convergence is reported by {alg} but the relative projected gradient is {worst:.3g} > 1e-3',
+        if worst > thr:
+            out.append(Finding('stationarity', f'convergence is reported by {alg} but the relative projected gradient is {worst:.3g} > {thr:g}'
+                               + (f' (settings {run.get("settings")})' if run.get('settings') else ''),
                                'gradient ~ 0 in every direction not blocked by an active bound',
                                {'estimates': x, 'g': g, 'projected_gradient': pgs, 'bounds': list(zip(lbs, ubs)), 'cause': r.get('cause'),
-                                'logLike': L, 'initLogLike': L0}))
+                                'logLike': L, 'initLogLike': L0, 'settings': run.get('settings')}))
     # --- (5) write-back (estimate() only; quick_estimate() must leave every Beta alone or write the estimates)
     before, after = r['leaves_before'], r['leaves_after']
     if quick:
@@ -1171,7 +1205,7 @@ def evaluate(ctx, st, problems, runs, results):
             st.record({'problem': {'kind': p['kind'], 'rows': len(p['choice']), 'free': p['free'], 'fixed': list(p['fixed']),
                                    'alts': p['alts']},
                        'params': run['params'], 'algorithm': run['algorithm'], 'share': run['share'],
-                       'iter_start': run['iter_start'], 'tags': run['tags']},
+                       'iter_start': run['iter_start'], 'settings': run.get('settings'), 'tags': run['tags']},
                       nontrivial=bool(info.get('converged')) and bool(info.get('moved')))
         # witness class: a run in which some free parameter is pinned by lb == ub is marked (degenerate box; see the open
         # finding C07/estimate/stationarity-pinned in KNOWN_FINDINGS.json)
@@ -1240,7 +1274,8 @@ def stream_estimate(ctx, n_problems=None, only=None, name='estimate'):
                     '30-80 rows of dyadic data, finite maximum checked by a numpy Newton iteration) x bound configurations '
                     '(none / inactive / active at the optimum / one-sided; for some problems also one parameter pinned by lb == ub) x feasible '
                     'starting points (zero, random, near the optimum, far, on a bound; 12% through a restart file __<model>.iter) x shared or '
-                    'per-occurrence Beta objects x EVERY name of optimization.algorithms + automatic; 12% of the combinations through '
+                    'per-occurrence Beta objects x EVERY name of optimization.algorithms + automatic; a few combinations with non-default '
+                    '[SimpleBounds] tolerance (1e-7, 1e-3) / steptol (1e-9; 0.1 for the algorithms without step test); 12% through '
                     'quick_estimate(); corpus/C07 first; non-trivial = convergence reported and the estimates differ from the start; '
                     'distinct by (model, parameters, start, bounds, algorithm)')
     algorithms = algorithm_names()
@@ -1275,6 +1310,7 @@ def stream_estimate(ctx, n_problems=None, only=None, name='estimate'):
         runs += gen_runs(rng, gen, algorithms, n_starts=ctx.n(2, 3), bound_kinds=BOUND_KINDS)
         some = {k: v for k, v in gen.items() if len(v['free']) >= 2 and int(k[1:]) % ctx.n(3, 2) == 0}
         runs += gen_runs(rng, some, algorithms, n_starts=1, bound_kinds=EXTRA_BOUND_KINDS)
+        runs += gen_tolerance_runs(rng, gen, algorithms, ctx.n(3, 40))
     results = run_impl(ctx, problems, runs)
     summary = evaluate(ctx, st, problems, runs, results)
     st.extra.update(summary)
@@ -1292,8 +1328,8 @@ SETTING_CHOICES = {
     'enlarging_factor': [2.0, 5.0, 10.0],
     'second_derivatives': [0.0, 0.5, 1.0],
     'infeasible_cg': [True, False],
-    'tolerance': [2.0 ** -13, 2.0 ** -12, 1.0e-4],
-    'steptol': [2.0 ** -17, 1.0e-5],
+    'tolerance': [2.0 ** -13, 2.0 ** -12, 1.0e-4, 1.0e-7, 1.0e-3],
+    'steptol': [2.0 ** -17, 1.0e-5, 1.0e-9, 1.0e-6],
 }
 
 
@@ -1315,6 +1351,29 @@ PLUMB_CHK = (
     '  forallb (fun kw => match assoc (snd kw) function_parameters, assoc (fst kw) obs_fn with\n'
     '                     | Some src, Some t => String.eqb t (token_of settings src)\n'
     '                     | _, _ => false end) function_parameters_plumbing.\n')
+
+
+def tolerance_oracle(ctx, problems, run, fn_call):
+    """property-level oracle on a recorded call of FunctionToMinimize.__init__: the objective must be built with the CONFIGURED
+    tolerance / steptol (they decide when convergence is reported): epsilon = [SimpleBounds] tolerance, steptol = [SimpleBounds] steptol"""
+    got = fn_call['kwargs']
+    want = {'epsilon': value_token(run['settings']['tolerance']), 'steptol': value_token(run['settings']['steptol'])}
+    if got == want:
+        return False
+
+    def rd(t):
+        try:
+            return float(Fraction(t))
+        except Exception:
+            return t
+    ctx.violation(f'C07/plumbing/tolerances/{run["algorithm"]}',
+                  f'configured tolerance={run["settings"]["tolerance"]!r}, steptol={run["settings"]["steptol"]!r} -> the objective '
+                  f'handed to the optimiser is built with epsilon={rd(got.get("epsilon"))!r}, steptol={rd(got.get("steptol"))!r}: '
+                  'convergence is reported under another stopping rule than the configured one',
+                  witness(problems[run['pid']], [run]), {k: rd(v) for k, v in want.items()}, {k: rd(v) for k, v in got.items()},
+                  'estimate() with the settings of the witness; record the arguments of FunctionToMinimize.__init__ '
+                  '(lib/impl/c07_estimate.py, spy=True); ./check C07 --replay <this file>')
+    return True
 
 
 def stream_plumbing(ctx, n_per_alg=None, with_model=True):
@@ -1351,6 +1410,7 @@ def stream_plumbing(ctx, n_per_alg=None, with_model=True):
         if len(calls) != 1 or len(fns) != 1:
             st.disagree(case, 'exactly one external routine called, one objective built', r['calls'])
             continue
+        tolerance_oracle(ctx, problems, run, fns[0])
         c = calls[0]
         names = r['betaNames']
         spec = {p['name']: p for p in run['params']}
@@ -1446,7 +1506,20 @@ def replay(ctx, path):
     if not isinstance(wit, dict) or 'problem' not in wit or 'runs' not in wit:
         print('replay: this file names an obligation/stream; re-run ./check C07')
         return 2
-    stream_estimate(ctx, only=[wit])
+    if '/plumbing/' in str(w.get('key') or ''):
+        problems = {'w0': wit['problem']}
+        runs = []
+        for run in wit['runs']:
+            r2 = {kk: vv for kk, vv in run.items() if kk != 'readable'}
+            r2['pid'] = 'w0'
+            runs.append(r2)
+        for run, r in zip(runs, run_impl(ctx, problems, runs, spy=True)):
+            fns = [c for c in (r.get('calls') or []) if c['routine'] == 'FunctionToMinimize.__init__']
+            if r.get('ok') and len(fns) == 1 and run.get('settings') and {'tolerance', 'steptol'} <= set(run['settings']):
+                tolerance_oracle(ctx, problems, run, fns[0])
+        evaluate(ctx, None, problems, runs, [r for r in run_impl(ctx, problems, runs)])
+    else:
+        stream_estimate(ctx, only=[wit])
     bad = bool(ctx.violations) or bool(ctx.known_hits)
     print(json.dumps({'key': w.get('key'), 'still_fails': bad,
                       'violations': [{'key': v['key'], 'what': v['what'][:300]} for v in ctx.violations[:4]],
